@@ -204,6 +204,18 @@ def slice_function(root, spec):
         body, k = re.subn(r'\b%s\b' % re.escape(tp), ty, body)
         fired['R-tmpl:' + tp] = k
     body = re.sub(r'\btypename\s+', '', body)
+    # R-trait: std::numeric_limits<T>::f() -> <limits.h>/<float.h> constants (evaluated by the slicer, checked by co-simulation)
+    NL = {('float', 'max'): 'FLT_MAX', ('float', 'min'): 'FLT_MIN', ('float', 'lowest'): '(-FLT_MAX)', ('float', 'epsilon'): 'FLT_EPSILON',
+          ('double', 'max'): 'DBL_MAX', ('double', 'min'): 'DBL_MIN', ('double', 'lowest'): '(-DBL_MAX)', ('double', 'epsilon'): 'DBL_EPSILON',
+          ('int32_t', 'max'): 'INT32_MAX', ('int32_t', 'min'): 'INT32_MIN', ('int32_t', 'lowest'): 'INT32_MIN', ('int', 'max'): 'INT_MAX', ('int', 'min'): 'INT_MIN',
+          ('uint32_t', 'max'): 'UINT32_MAX', ('uint32_t', 'min'): '0u', ('int64_t', 'max'): 'INT64_MAX', ('int64_t', 'min'): 'INT64_MIN', ('uint64_t', 'max'): 'UINT64_MAX',
+          ('uint8_t', 'max'): '255', ('uint16_t', 'max'): '65535', ('int8_t', 'max'): '127', ('int16_t', 'max'): '32767', ('int8_t', 'min'): '(-128)', ('int16_t', 'min'): '(-32768)'}
+    def nl(mm):
+        key = (mm.group(1), mm.group(2))
+        if key not in NL: raise SliceError('%s: std::numeric_limits<%s>::%s() not in the trait table' % (spec['name'], key[0], key[1]))
+        fired['R-trait.numeric_limits'] = fired.get('R-trait.numeric_limits', 0) + 1
+        return NL[key]
+    body = re.sub(r'std::numeric_limits<\s*(\w+)\s*>::(\w+)\(\)', nl, body)
     # R-cast
     body = rewrite_casts(body, fired)
     # R-kw
